@@ -4,7 +4,7 @@
 // no-Drop types with an observable Clone, ZST keys/values, small Copy, large
 // payloads.  Each failure is one FAULT line.
 use crate::elems::{fault, ALLOCS, COUNTING};
-use micromap::{Map, Set};
+use micromap::{IntoIter, IntoKeys, IntoValues, Iter, IterMut, Keys, Map, Set, Values, ValuesMut};
 use std::cell::Cell;
 use std::fmt::Write as FmtWrite;
 use std::panic::{catch_unwind, AssertUnwindSafe};
@@ -137,6 +137,40 @@ fn no_alloc() {
     else if a1 != a0 { fault(format!("op=shapes ALLOC {} allocator calls in container operations on non-allocating element types", a1 - a0)); }
 }
 
+
+// the Default constants of the iterator types are empty, exact and fused; Extend<&T>
+// (Copy elements) equals Extend<T> of the copies, overflow included
+fn misc_surface() {
+    fn empty<I: Iterator + ExactSizeIterator + std::fmt::Debug>(name: &str, mut it: I) {
+        if it.len() != 0 || it.size_hint() != (0, Some(0)) { fault(format!("op=shapes ITER_DEFAULT {}::default() reports len {} size_hint {:?}", name, it.len(), it.size_hint())); }
+        if format!("{:?}", it) != "[]" { fault(format!("op=shapes ITER_DEFAULT {}::default() renders as {:?}", name, format!("{:?}", it))); }
+        if it.next().is_some() || it.next().is_some() || it.len() != 0 { fault(format!("op=shapes ITER_DEFAULT {}::default() yields an item", name)); }
+    }
+    empty("Iter", Iter::<u32, String>::default());
+    empty("IterMut", IterMut::<u32, String>::default());
+    empty("IntoIter", IntoIter::<u32, String, 3>::default());
+    empty("IntoIter<_,_,0>", IntoIter::<String, u8, 0>::default());
+    empty("Keys", Keys::<u32, String>::default());
+    empty("Values", Values::<u32, String>::default());
+    empty("ValuesMut", ValuesMut::<u32, String>::default());
+    empty("IntoKeys", IntoKeys::<String, u32, 2>::default());
+    empty("IntoValues", IntoValues::<u32, String, 2>::default());
+    // Extend<&T>
+    let srcs: [&[u32]; 5] = [&[], &[1], &[1, 2, 1, 3], &[4, 4, 4, 4, 4, 4], &[5, 6, 7, 8, 9]];
+    for pre in 0..=3u32 {
+        for src in srcs.iter() {
+            let mut a: Set<u32, 4> = Set::new(); let mut b: Set<u32, 4> = Set::new();
+            for i in 0..pre { a.insert(100 + i); b.insert(100 + i); }
+            let ra = catch_unwind(AssertUnwindSafe(|| a.extend(src.iter())));
+            let rb = catch_unwind(AssertUnwindSafe(|| b.extend(src.iter().copied())));
+            let (va, vb): (Vec<u32>, Vec<u32>) = (a.iter().copied().collect(), b.iter().copied().collect());
+            if ra.is_ok() != rb.is_ok() || va != vb || a.len() != b.len() {
+                fault(format!("op=shapes EXTEND_REF Set<u32,4> with {} elements: extend(&items {:?}) gives {:?} (panicked: {}), extend(items) gives {:?} (panicked: {})", pre, src, va, ra.is_err(), vb, rb.is_err()));
+            }
+        }
+    }
+}
+
 pub fn run() {
     clone_counts::<1>(); clone_counts::<3>(); clone_counts::<8>();
     overflow_shape::<u8, (), 0>("u8 -> () (ZST value)", &[], 1, ());
@@ -147,4 +181,5 @@ pub fn run() {
     overflow_shape::<String, Vec<u8>, 2>("heap-owning", &["a".to_string(), "b".to_string()], "c".to_string(), vec![1, 2, 3]);
     overflow_shape::<u16, [u8; 3], 8>("odd-sized", &[1, 2, 3, 4, 5, 6, 7, 8], 9, [1, 2, 3]);
     no_alloc();
+    misc_surface();
 }
